@@ -171,7 +171,15 @@ def gen(rng, tier, i):
         elif a == 'co':
             c = rng.choice(t)
             cid_ = _bomb(st, 'coid')
-            if rng.random() < 0.5:
+            if rng.random() < 0.3:
+                # several call_outs due in the same second, a failing one among them (queued first, in the middle or last)
+                d = rng.choice((0, 1, 2, 3)); n = rng.randint(2, 4); bad = rng.randrange(n)
+                parts = []
+                for q in range(n):
+                    parts.append('co k%d %d %s' % (cid_, d, bomb_script('co').replace(';', ',') if q == bad else 'rec fired'))
+                    if q < n - 1: cid_ = _bomb(st, 'coid')
+                p.cycle(say(c, 'do ' + ';'.join(parts)))
+            elif rng.random() < 0.5:
                 p.cycle(say(c, 'do co k%d %d rec fired' % (cid_, rng.choice((0, 1, 2, 3, 5)))))
             else:
                 p.cycle(say(c, 'do co k%d %d %s' % (cid_, rng.choice((0, 1, 2, 3)), bomb_script('co').replace(';', ','))))
@@ -369,13 +377,25 @@ def _timers_alive(plan, res):
     for e in evs:
         if e.kind == 'R':
             w = e.rest.split(' ')
-            if w[0] == 'COSET' and w[2] == 'kz':
+            # every call_out of every object that stays: the CO record is written when the callback starts, whatever it does then
+            if w[0] == 'COSET' and len(w) > 2:
                 kv = dict(t.split('=', 1) for t in w if '=' in t)
-                sets[w[1]] = (e.cycle, int(kv['t']) + max(int(kv['d']), 1))
-            elif w[0] == 'CO' and w[2] == 'kz': fired.add(w[1])
-            elif w[0] in ('QUIT', 'DEST') and len(w) > 1: gone.add(w[1])
-    for who, (cyc, due) in sets.items():
-        if who in fired or who in gone: continue
+                sets[(w[1], w[2])] = (e.cycle, int(kv['t']) + max(int(kv['d']), 1))
+            elif w[0] == 'CO' and len(w) > 2: fired.add((w[1], w[2]))
+            elif w[0] in ('QUIT', 'DEST', 'EXEC', 'EXECD', 'NETDEAD', 'RELOAD') and len(w) > 1: gone.add(w[1])
+    # an injected fault can stop a callback before it has written its record: the error report then names co_fire as the
+    # outermost frame; which call_out of that object it was cannot be told, so that object's call_outs are not judged
+    for i, e in enumerate(evs):
+        if e.kind == 'fault_fired':
+            for x in evs[i + 1:i + 12]:
+                m = re.search(r'object=(\S+) .*trace=co_?f\w*@', x.rest) if x.kind == 'R' and x.rest.startswith('ERR ') else None
+                if m: gone.add(m.group(1))
+    for e in evs:       # objects appear under their tag once they have one
+        if e.kind == 'R' and e.rest.startswith('NAME '):
+            w = e.rest.split(' ')
+            if len(w) > 2 and w[2] in gone: gone.add(w[1])
+    for (who, cid), (cyc, due) in sets.items():
+        if (who, cid) in fired or who in gone or who.split('#')[0] in gone: continue
         # an error-free tick at or after the due time?
         for e in evs:
             if e.kind == 'step' and re.match(r'&?step (tick|stall) ', e.rest) and e.cycle > cyc and e.cycle not in err_cycles:
@@ -383,7 +403,7 @@ def _timers_alive(plan, res):
                 nxt = [x for x in evs if x.cycle == e.cycle and x.kind == 'eventfd_read']
                 if nxt: t = 1000000000 + nxt[0].vus // 1000000
                 if t >= due + 1:
-                    v.append(Violation(PROP, 'timers', 'call_out kz of %s (due t=%d) did not fire in the error-free tick of cycle %d (t=%d)' % (who, due, e.cycle, t),
+                    v.append(Violation(PROP, 'timers', 'call_out %s of %s (due t=%d) did not fire in the error-free tick of cycle %d (t=%d)' % (cid, who, due, e.cycle, t),
                                        PROP + '/liveness/call_out-never-fires'))
                     break
     return v
